@@ -7,7 +7,9 @@ cd "$(dirname "$0")"
 PATCHES=("$@")
 [ ${#PATCHES[@]} -gt 0 ] || PATCHES=(mutants/*.patch seeded/*/patch.diff)
 git -C /repo diff --quiet || { echo "/repo has uncommitted changes; refusing"; exit 2; }
-trap 'git -C /repo checkout -- . >/dev/null 2>&1' EXIT
+# evidence files are rewritten by every run: keep the ones of the unchanged tree
+EVBAK="$(mktemp -d /tmp/vp-evidence-XXXXXX)"; cp -a evidence/. "$EVBAK"/ 2>/dev/null
+trap 'git -C /repo checkout -- . >/dev/null 2>&1; rm -rf evidence; mkdir -p evidence; cp -a "$EVBAK"/. evidence/ 2>/dev/null; rm -rf "$EVBAK"' EXIT
 for p in "${PATCHES[@]}"; do
   [ -f "$p" ] || continue
   name="$p"
